@@ -68,6 +68,15 @@ pub fn run(args: &[String]) {
       emit_addr(&mut out, b);
       for w in ["break", "p", "print", "BREAK", "Print"].iter() { emit_parse(&mut out, &format!("{} {}", w, b)); emit_parse(&mut out, &format!("{}\t{} extra", w, b)); }
     }
+    // numbers assembled from pieces: repeated prefixes, signs in odd places, digits of the wrong base, range edges
+    let pieces = ["0x", "0X", "x", "+", "-", "0", "1", "9", "a", "f", "F", "g", "10", "ffff", "FFFF", "10000", "65535", "65536", " ", "_", "0x0", "00"];
+    for _ in 0..4000 {
+      let n = 1 + rng.below(4) as usize;
+      let mut t = String::new();
+      for _ in 0..n { t.push_str(pieces[rng.below(pieces.len() as u64) as usize]); }
+      emit_addr(&mut out, &t);
+      if !t.contains(' ') { emit_parse(&mut out, &format!("break {}", t)); emit_parse(&mut out, &format!("P\t{}", t)); }
+    }
     for w in ["c", "continue", "s", "step", "info reg", "info registers", "info", "info x", "break", "p", "print", "continue now", "step 2", "info reg x",
               "C", "Continue", "STEP", "S", "INFO REGISTERS", "Info Reg", "", " ", "\t\n", "cont", "steps", "ｃ", "ＳＴＥＰ", "\u{212a}", "ſ", "brea\u{212a}", "İnfo reg",
               "info\u{a0}reg", "c\u{2003}", "\u{3000}step\u{3000}", "c\u{200b}", "c\u{feff}", "\u{1f600}", "break\u{0}1", "p 0x10 0x20", "print 5 6 7"].iter() {
